@@ -323,4 +323,232 @@ theorem lex_ne_unsupported : ∀ (n : Nat) (s : List Char), s.length ≤ n → l
       | err e => simp
       | stop => simp
 
+/-! ### one step at each kind of character -/
+
+theorem ne_of_isAlpha {c d : Char} (hc : isAlpha c = true) (hd : isAlpha d = false) : c ≠ d := by
+  intro h; rw [h] at hc; rw [hc] at hd; cases hd
+
+theorem isAlpha_range {c : Char} (h : isAlpha c = true) :
+    (97 ≤ c.toNat ∧ c.toNat ≤ 122) ∨ (65 ≤ c.toNat ∧ c.toNat ≤ 90) := by
+  unfold isAlpha at h
+  have e1 : 'a'.toNat = 97 := rfl
+  have e2 : 'z'.toNat = 122 := rfl
+  have e3 : 'A'.toNat = 65 := rfl
+  have e4 : 'Z'.toNat = 90 := rfl
+  simp only [Bool.or_eq_true, Bool.and_eq_true, decide_eq_true_eq, e1, e2, e3, e4] at h
+  exact h
+
+theorem isWs_of_isAlpha {c : Char} (h : isAlpha c = true) : isWs c = false := by
+  have := isAlpha_range h
+  unfold isWs
+  simp only [Bool.or_eq_false_iff, Bool.and_eq_false_iff, decide_eq_false_iff_not]
+  omega
+
+theorem digitVal_of_isAlpha {c : Char} (h : isAlpha c = true) : digitVal c = none := by
+  unfold digitVal
+  simp [ne_of_isAlpha h (show isAlpha '0' = false by decide),
+    ne_of_isAlpha h (show isAlpha '1' = false by decide),
+    ne_of_isAlpha h (show isAlpha '2' = false by decide),
+    ne_of_isAlpha h (show isAlpha '3' = false by decide),
+    ne_of_isAlpha h (show isAlpha '4' = false by decide),
+    ne_of_isAlpha h (show isAlpha '5' = false by decide),
+    ne_of_isAlpha h (show isAlpha '6' = false by decide),
+    ne_of_isAlpha h (show isAlpha '7' = false by decide),
+    ne_of_isAlpha h (show isAlpha '8' = false by decide),
+    ne_of_isAlpha h (show isAlpha '9' = false by decide)]
+
+theorem lexStep_alpha {c : Char} (h : isAlpha c = true) (r : List Char) :
+    lexStep c r = .tok (.kw (c :: (scanWord r).1)) (scanWord r).2 := by
+  unfold lexStep
+  rw [if_neg (ne_of_isAlpha h (by decide)), if_neg (by rw [isWs_of_isAlpha h]; simp),
+    if_neg (ne_of_isAlpha h (by decide)), if_neg (ne_of_isAlpha h (by decide)),
+    if_neg (ne_of_isAlpha h (by decide)), if_neg (ne_of_isAlpha h (by decide)),
+    if_neg (ne_of_isAlpha h (by decide)), if_neg (ne_of_isAlpha h (by decide)),
+    if_neg (ne_of_isAlpha h (by decide)), if_neg (ne_of_isAlpha h (by decide)),
+    if_neg (by rw [digitVal_of_isAlpha h]; simp), if_pos h]
+
+theorem digitChar_ne' (d : Nat) (c : Char) (hc : digitVal c = none) : digitChar d ≠ c := by
+  intro h
+  have : digitVal (digitChar d) ≠ none := by
+    unfold digitChar; split <;> decide
+  rw [h] at this; exact this hc
+
+theorem digitChar_isSome (d : Nat) : (digitVal (digitChar d)).isSome = true := by
+  unfold digitChar; split <;> decide
+
+theorem isWs_digitChar (d : Nat) : isWs (digitChar d) = false := by
+  unfold digitChar; split <;> decide
+
+theorem lexStep_digit (d : Nat) (r : List Char) :
+    lexStep (digitChar d) r = Step.ofRes (lexNumber false (digitChar d :: r)) := by
+  unfold lexStep
+  rw [if_neg (digitChar_ne' d _ (by decide)), if_neg (by rw [isWs_digitChar]; simp),
+    if_neg (digitChar_ne' d _ (by decide)), if_neg (digitChar_ne' d _ (by decide)),
+    if_neg (digitChar_ne' d _ (by decide)), if_neg (digitChar_ne' d _ (by decide)),
+    if_neg (digitChar_ne' d _ (by decide)), if_neg (digitChar_ne' d _ (by decide)),
+    if_neg (digitChar_ne' d _ (by decide)), if_neg (digitChar_ne' d _ (by decide)),
+    if_pos (digitChar_isSome d)]
+
+/-! ### `lex` on each kind of token followed by arbitrary text -/
+
+theorem lex_space (s : List Char) : lex (' ' :: s) = lex s := by
+  rw [lex_cons]; rfl
+theorem lex_newline (s : List Char) : lex ('\n' :: s) = lex s := by
+  rw [lex_cons]; rfl
+theorem lex_indent : ∀ (d : Nat) (s : List Char), lex (List.replicate d ' ' ++ s) = lex s := by
+  intro d
+  induction d with
+  | zero => intro s; rfl
+  | succ d ih => intro s; simp only [List.replicate_succ, List.cons_append]; rw [lex_space, ih]
+
+theorem lex_lparen (s : List Char) : lex ('(' :: s) = (lex s).cons .lparen := by rw [lex_cons]; rfl
+theorem lex_rparen (s : List Char) : lex (')' :: s) = (lex s).cons .rparen := by rw [lex_cons]; rfl
+theorem lex_lbrack (s : List Char) : lex ('[' :: s) = (lex s).cons .lbrack := by rw [lex_cons]; rfl
+theorem lex_rbrack (s : List Char) : lex (']' :: s) = (lex s).cons .rbrack := by rw [lex_cons]; rfl
+theorem lex_comma (s : List Char) : lex (',' :: s) = (lex s).cons .comma := by rw [lex_cons]; rfl
+theorem lex_eq (s : List Char) : lex ('=' :: s) = (lex s).cons .eq := by rw [lex_cons]; rfl
+
+theorem scanWord_tail : ∀ (t rest : List Char),
+    t.all (fun x => isAlpha x || decide (x = '_')) = true → WordEnd rest → scanWord (t ++ rest) = (t, rest) := by
+  intro t
+  induction t with
+  | nil => intro rest _ h; simpa using scanWord_end rest h
+  | cons c t ih =>
+    intro rest ht h
+    simp only [List.all_cons, Bool.and_eq_true] at ht
+    have hc : (isAlpha c || decide (c = '_')) = true := ht.1
+    simp only [List.cons_append, scanWord]
+    have : (isAlpha c = true ∨ c = '_') := by simpa using hc
+    have hc' : (isAlpha c || c = '_') = true := by simpa using this
+    rw [if_pos (by simpa using this), ih rest ht.2 h]
+
+theorem lex_kw (w s : List Char) (hw : isWord w = true) (hs : WordEnd s) :
+    lex (w ++ s) = (lex s).cons (.kw w) := by
+  cases w with
+  | nil => simp [isWord] at hw
+  | cons c t =>
+    simp only [isWord, Bool.and_eq_true] at hw
+    simp only [List.cons_append]
+    rw [lex_cons, lexStep_alpha hw.1, scanWord_tail t s hw.2 hs]
+
+theorem lex_str (raw : Char → Bool) (str : Str) (s : List Char) :
+    lex (printStr raw str ++ s) = (lex s).cons (.str str) := by
+  unfold printStr
+  simp only [List.cons_append, List.append_assoc]
+  rw [lex_cons]
+  have : lexStep '"' (escapeStr raw str ++ ('"' :: ([] ++ s))) = .tok (.str str) s := by
+    unfold lexStep
+    rw [if_neg (by decide), if_neg (by decide), if_neg (by decide), if_neg (by decide),
+      if_neg (by decide), if_neg (by decide), if_neg (by decide), if_neg (by decide),
+      if_pos rfl]
+    simp only [List.nil_append]
+    rw [scanStr_escapeStr]
+    rfl
+  simp only [List.nil_append] at this ⊢
+  rw [this]
+
+theorem natChars_cons (n : Nat) : ∃ d t, natChars n = digitChar d :: t := by
+  unfold natChars
+  have hne := natDigits_ne_nil n
+  cases hd : natDigits n with
+  | nil => exact absurd hd hne
+  | cons d ds => exact ⟨d, ds.map digitChar, rfl⟩
+
+theorem lexStep_minus (r : List Char) : lexStep '-' r = Step.ofRes (lexNumber true r) := by
+  unfold lexStep
+  rw [if_neg (by decide), if_neg (by decide), if_neg (by decide), if_neg (by decide),
+    if_neg (by decide), if_neg (by decide), if_neg (by decide), if_neg (by decide),
+    if_neg (by decide), if_pos rfl]
+
+/-- A non-negative number text (starting with a digit): the step is `lexNumber false`. -/
+theorem lex_number_nonneg (n : Nat) (tail : List Char) (t : BTok) (rest : List Char)
+    (h : lexNumber false (natChars n ++ tail) = .ok (t, rest)) :
+    lex (natChars n ++ tail) = (lex rest).cons t := by
+  obtain ⟨d, ds, hd⟩ := natChars_cons n
+  rw [hd] at h ⊢
+  simp only [List.cons_append] at h ⊢
+  rw [lex_cons, lexStep_digit, h]
+  rfl
+
+theorem lex_number_neg (txt : List Char) (t : BTok) (rest : List Char)
+    (h : lexNumber true txt = .ok (t, rest)) :
+    lex ('-' :: txt) = (lex rest).cons t := by
+  rw [lex_cons, lexStep_minus, h]
+  rfl
+
+theorem lex_int (n : Int) (s : List Char) (hn : -2147483647 ≤ n ∧ n ≤ 2147483647) (hs : Terminated s) :
+    lex (printInt n ++ s) = (lex s).cons (.int n) := by
+  unfold printInt
+  by_cases hneg : n < 0
+  · simp only [hneg, if_true, List.cons_append]
+    have h := lexNumber_int true n.natAbs s (by omega) hs
+    rw [lex_number_neg _ _ _ h]
+    congr 2
+    simp; omega
+  · simp only [hneg, if_false]
+    have h := lexNumber_int false n.natAbs s (by omega) hs
+    rw [lex_number_nonneg _ _ _ _ h]
+    congr 2
+    simp; omega
+
+theorem printNoUnits_nonneg (a : Nat) :
+    printNoUnits (a : Int) = natChars (a / 65536) ++ '.' :: (fracDigits (a % 65536)).map digitChar := by
+  unfold printNoUnits
+  have hnn : ¬ ((a : Int) < 0) := by omega
+  simp [hnn]
+
+theorem printNoUnits_neg (s : Int) (h : s < 0) :
+    printNoUnits s = '-' :: printNoUnits (s.natAbs : Int) := by
+  unfold printNoUnits
+  have hnn : ¬ ((s.natAbs : Int) < 0) := by omega
+  simp [h, hnn]
+
+theorem lex_dim (H : ScaledRoundTrip) (s : Int) (rest : List Char)
+    (hs : -1073741823 ≤ s ∧ s ≤ 1073741823) (hr : WordEnd rest) :
+    lex (printScaled s ++ rest) = (lex rest).cons (.dim s) := by
+  unfold printScaled
+  by_cases hneg : s < 0
+  · rw [printNoUnits_neg s hneg]
+    simp only [List.cons_append, List.append_assoc]
+    have h1 := lexNumber_scaled H true s.natAbs ['p', 't'] rest (by decide) (by simp)
+    have h2 := lexUnit_pt H true s.natAbs (by omega) rest hr
+    rw [h2] at h1
+    simp only [List.cons_append, List.nil_append] at h1 ⊢
+    rw [lex_number_neg _ _ _ h1]
+    congr 2
+    simp; omega
+  · have e : s = (s.natAbs : Int) := by omega
+    rw [e, printNoUnits_nonneg]
+    have h1 := lexNumber_scaled H false s.natAbs ['p', 't'] rest (by decide) (by simp)
+    have h2 := lexUnit_pt H false s.natAbs (by omega) rest hr
+    rw [h2, printNoUnits_nonneg] at h1
+    simp only [List.append_assoc, List.cons_append, List.nil_append] at h1 ⊢
+    rw [lex_number_nonneg _ _ _ _ h1]
+    congr 2
+    simp
+
+theorem lex_inf (H : ScaledRoundTrip) (s : Int) (o : InfOrder) (rest : List Char)
+    (hs : -2147483647 ≤ s ∧ s ≤ 2147483647) (hr : WordEnd rest) :
+    lex (printNoUnits s ++ (o.unit ++ rest)) = (lex rest).cons (.inf s o) := by
+  have hu : ∀ c ∈ o.unit, isAlpha c = true := by cases o <;> decide
+  have hne : o.unit ≠ [] := by cases o <;> simp [InfOrder.unit]
+  by_cases hneg : s < 0
+  · rw [printNoUnits_neg s hneg]
+    simp only [List.cons_append]
+    have h1 := lexNumber_scaled H true s.natAbs o.unit rest hu hne
+    have h2 := lexUnit_inf H true s.natAbs (by omega) o rest hr
+    rw [h2] at h1
+    rw [lex_number_neg _ _ _ h1]
+    congr 2
+    simp; omega
+  · have e : s = (s.natAbs : Int) := by omega
+    rw [e, printNoUnits_nonneg]
+    have h1 := lexNumber_scaled H false s.natAbs o.unit rest hu hne
+    have h2 := lexUnit_inf H false s.natAbs (by omega) o rest hr
+    rw [h2, printNoUnits_nonneg] at h1
+    simp only [List.append_assoc, List.cons_append] at h1 ⊢
+    rw [lex_number_nonneg _ _ _ _ h1]
+    congr 2
+    simp
+
 end C18
